@@ -161,6 +161,63 @@ func checkC04(c *ctx) {
 			return
 		}
 	}
+	// generations of one small segment shape (same ids, same lengths, other values), persisted up
+	// front, then opened, read and closed strictly in turn: a later file is usually mapped exactly
+	// where the earlier one was, with the same record offsets and lengths
+	{
+		const gens = 6
+		letters := "abcdefghijklmnopqrstuvwxyz0123456789ABCDEFGHIJKLMNOPQRSTUVWXYZ"
+		paths := make([]string, gens)
+		vals := make([][]string, gens)
+		for gen := 0; gen < gens; gen++ {
+			var b zh.Batch
+			for d := 0; d < 4; d++ {
+				perm := []byte(letters)
+				for x := range perm {
+					y := x + c.R.Intn(len(perm)-x)
+					perm[x], perm[y] = perm[y], perm[x]
+				}
+				v := string(perm[:40]) // no repetition: every generation compresses to the same length
+				vals[gen] = append(vals[gen], v)
+				b = append(b, zh.Doc{Fields: []zh.Field{zh.IDField(fmt.Sprintf("g%02d", d)),
+					{Name: "body", Stored: true, Typ: 't', Val: []byte(v), Len: 1, Toks: []zh.Tok{{Term: "x", Freq: 1}}}}})
+			}
+			sb, _, err := zh.Build(b, 1026)
+			must(err)
+			paths[gen] = zh.TmpPath(fmt.Sprintf("c04gen%d", gen))
+			must(zap.PersistSegmentBase(sb, paths[gen]))
+		}
+		for round := 0; round < 3; round++ {
+			for gen := 0; gen < gens; gen++ {
+				s, err := zh.Plugin.Open(paths[gen])
+				must(err)
+				for q := uint64(0); q < 4; q++ {
+					d := q
+					if gen%2 == 1 { // the document read last in one generation is read first in the next
+						d = 3 - q
+					}
+					val := ""
+					s.VisitStoredFields(d, func(field string, typ byte, value []byte, pos []uint64) bool {
+						if field == "body" {
+							val = string(value)
+						}
+						return true
+					})
+					if val != vals[gen][d] {
+						s.Close()
+						c.Violation(fmt.Sprintf("C04 six generations of a 4-document segment (same ids and lengths, other stored values) are opened, read and closed in turn: generation %d, document %d reads %q, its batch says %q", gen, d, val, vals[gen][d]), false)
+						return
+					}
+				}
+				s.Close()
+				c.Count("same_shape_generation_opens")
+			}
+		}
+		for _, p := range paths {
+			os.Remove(p)
+		}
+		c.Case("generations", true)
+	}
 	// batches with 127, 128, 129 and 300 distinct field names (the field count and every field id
 	// cross the one-byte varint)
 	for _, nf := range []int{127, 128, 129, 300} {
